@@ -39,6 +39,31 @@ Proof.
 Qed.
 Print Assumptions C11_case_split.
 
+(* GO included (the splitter upper-cases the first word since the fix of C11-go-case): re-casing ASCII letters
+   inside keyword tokens, ANY keyword tokens *)
+Definition kw_only (a b : tok) : Prop := is_kw_tok a = false -> snd a = snd b.
+
+Lemma kw_only_guard a b : fst a = fst b -> Forall2 Rcase (snd a) (snd b) -> kw_only a b -> case_guard a b.
+Proof.
+  intros Hty Hv Hn. split; [exact Hn|]. intros _.
+  pose proof (cur_Rcase_upper _ _ Hv) as Hu.
+  apply (guard_free a b Hty). rewrite Hu. reflexivity.
+Qed.
+
+Theorem C11_case_split_full t t' l l' :
+  Forall2 Rcase t t' -> cur_lex t = Ok l -> cur_lex t' = Ok l' ->
+  Forall2 kw_only l l' ->
+  map fst l = map fst l'
+  /\ stmt_sigs (cur_process l) = stmt_sigs (cur_process l').
+Proof.
+  intros Ht El El' Hg. apply (C11_case_split t t' l l' Ht El El').
+  pose proof (C_lex_case t t' Ht) as H. rewrite El, El' in H.
+  clear - H Hg. revert Hg. induction H as [|a b l l' [Hty Hv] _ IH]; intros Hg; [constructor|].
+  inversion Hg as [|a0 b0 l0 l0' Hg1 Hg2]; subst. constructor; [|auto].
+  apply kw_only_guard; assumption.
+Qed.
+Print Assumptions C11_case_split_full.
+
 (* example: "select a from t where x = 1 order by a; select 2" upper-casing all keywords *)
 Definition ex_case_a : text :=
   [115;101;108;101;99;116;32;97;32;102;114;111;109;32;116;32;119;104;101;114;101;32;120;32;61;32;49;32;111;114;100;101;114;32;98;121;32;97;59;32;115;101;108;101;99;116;32;50]%N.
